@@ -158,6 +158,7 @@ def check(env, rep, tier):
                "the body delivered with the final block is not shown to end at offset + length of the final block: "
                "bytes of an earlier, longer (abandoned) upload to the same resource can remain behind it", site,
                sample={"rule": "C09.5", "final_paths": len(pays)})
+        check_echo(prog, rep, body, req_arg, site)
         # ---- C09.4 negotiated size bounded by the client's
         news = [e for e in tr.events if e[0] == "bv-new" and e[4] is not None]
         good = bool(news)
@@ -170,3 +171,44 @@ def check(env, rep, tier):
         rep.ob("C09.4", "min-with-client", good,
                "the block size acknowledged to a client that sent a Block option is not min(client size, budget bound)", site,
                sample={"rule": "C09.4", "sites": len(news)})
+
+
+def check_echo(prog, rep, body, req_arg, site):
+    """C09.6: when the budget admits the client's block size (the property's domain), the Block1 value acknowledged is
+    built from exactly the request's block number and the client's size: (num x size) / size = num by exact division,
+    min(client, bound) = client.  The domain assumption bound >= client size is injected where the two meet (cmp::min)."""
+    def setup(tr, I, st):
+        def hook(I_, s, call, cbody):
+            if call.path.endswith("::checked_sub") and call.ctx.body["path"].startswith("block_handler::") and len(call.args) == 2 \
+                    and all(isinstance(a, IntV) for a in call.args):
+                s.ghost["room"] = call.args[0].aff - call.args[1].aff      # budget - non-payload size - reserve
+            if call.path == "core::cmp::min" and call.ctx.body["path"].startswith("block_handler::") and len(call.args) == 2:
+                cl = [a for a in call.args if isinstance(a, IntV) and a.origin is not None and a.origin[0] == "shl"]
+                room = s.ghost.get("room")
+                if len(cl) == 1 and room is not None:
+                    s.add_fact(room - cl[0].aff)
+                    s.ghost[("inj", "domain-admits-client-size")] = True
+        I.call_hooks.insert(0, hook)
+    tr = Trace(prog, None, body=body, req_arg=req_arg, setup=setup)
+    I = tr.I
+    spl = [e for e in tr.events if e[0] == "splice"]
+    facs = None
+    for _, args, s, sitec in spl:
+        rng = args[1]
+        if isinstance(rng, StructV) and len(rng.fields) == 2 and isinstance(rng.fields[0], IntV):
+            sg = rng.fields[0].aff.single()
+            inf = I.syminfo.get(sg[0]) if sg else None
+            if inf and inf[0] == "mul":
+                facs = {repr(inf[1]), repr(inf[2])}
+    def infeasible(s):
+        return s.dead or any(s.entails(-f - 1) for f in s.facts)
+    news = [e for e in tr.events if e[0] == "bv-new" and e[4] is not None and not infeasible(e[2]) and e[2].ghost.get(("inj", "domain-admits-client-size"))]
+    ok = bool(news) and facs is not None
+    for _, args, s, sitec, minargs in news:
+        num, size = args[0], args[2]
+        if not (isinstance(num, IntV) and isinstance(size, IntV) and {repr(num.aff), repr(size.aff)} == facs):
+            ok = False
+    rep.ob("C09.6", "echo-number-and-size", ok,
+           "when the budget admits the client's block size the acknowledged Block1 value is not built from the request's own block number "
+           "and size (a reduced size renumbers the block: the client's block is not echoed)", site,
+           sample={"rule": "C09.6", "block_values_built": len(news)})
